@@ -231,6 +231,39 @@ def returns_to_assignments(stmts, make_assign):
                              orelse=orelse)
                 out.append(ast.copy_location(new, st))
                 return out, True
+            if isinstance(st, ast.Try) and _contains_return(st) and \
+                    not any(_contains_return(x) for x in st.finalbody):
+                # try: A  except E: return x  <rest>   becomes
+                # try: A  except E: T = x  else: <rest>
+                rest = stmts[i + 1:]
+                body = list(st.body)
+                if any(_contains_return(x) for x in body):
+                    if not isinstance(body[-1], ast.Return) or any(
+                            _contains_return(x) for x in body[:-1]):
+                        return None
+                    body = body[:-1] + [make_assign(body[-1].value, body[-1])]
+                    orelse = list(st.orelse)    # (not reached)
+                else:
+                    o = conv(list(st.orelse) + copy.deepcopy(rest))
+                    if o is None:
+                        return None
+                    orelse, oterm = o
+                    if not oterm:
+                        orelse.append(make_assign(None, st))
+                handlers = []
+                for h in st.handlers:
+                    hc = conv(list(h.body) + copy.deepcopy(rest))
+                    if hc is None:
+                        return None
+                    hb, hterm = hc
+                    if not hterm:
+                        hb.append(make_assign(None, st))
+                    handlers.append(ast.copy_location(ast.ExceptHandler(
+                        type=h.type, name=h.name, body=hb), h))
+                new = ast.Try(body=body, handlers=handlers, orelse=orelse,
+                              finalbody=list(st.finalbody))
+                out.append(ast.copy_location(new, st))
+                return out, True
             if _contains_return(st):
                 return None
             out.append(st)
